@@ -251,8 +251,16 @@ class Case:
     __slots__ = ("name", "kind", "dialect", "sql", "qsql", "ast", "variants")
 
 
+MIXED = "Zq9X"         # a default spelled with upper-case letters: it is normalised like a schema name written in the script
+
+
+def nrm(S):
+    """printed form of an unquoted schema name"""
+    return S.lower() if S else S
+
+
 def variants_for(qualifiers_in_script):
-    v = [("unset", None), ("fresh", FRESH)]
+    v = [("unset", None), ("fresh", FRESH), ("mixed", MIXED)]
     qs = [q for q in qualifiers_in_script if q and q.isidentifier()]
     if qs:
         v.append(("used", sorted(set(q.lower() for q in qs))[0]))
@@ -263,7 +271,7 @@ def expected_from_partner(partner, S_label, S):
     """the partner ran the script qualified by S (or by FRESH2 for `unset`) under no default"""
     if S_label == "unset":
         return remap(partner, prefix_map([(FRESH2, PLACEHOLDER)]))
-    return remap(partner, prefix_map([(PLACEHOLDER, S)]))
+    return remap(partner, prefix_map([(PLACEHOLDER, nrm(S))]))
 
 
 def run(chk):
@@ -356,6 +364,20 @@ def run(chk):
         rs = run_in_env([case(items[k]["sql"], items[k]["dialect"], items[k]["S"]) for k in ks], "zenv0")
         for k, r in zip(ks, rs):
             both[k] = r
+    # ---- with a metadata provider that knows tables of the default schema: every metadata lookup goes by the table's schema, so the
+    # provider must be asked about S.name under default S exactly as for the qualified text (generated scripts, scoped override)
+    md_idx, md_of = [], {}
+    for k, it in enumerate(items):
+        if it["S"] and it["kind"] == "generated" and "result" in partner[k]:
+            pre = nrm(it["S"]) + "."
+            tabs = sorted({t for key in ("source", "target", "intermediate") for t in partner[k]["result"][key] if t.startswith(pre)})
+            if tabs:
+                C = list(gensql.COLS)
+                md_of[k] = {t: [C[(i + j) % len(C)] for j in range(3)] for i, t in enumerate(tabs)}
+                md_idx.append(k)
+    pm = sqlimpl.run_cases([dict(case(items[k]["qsql"], items[k]["dialect"]), metadata=md_of[k]) for k in md_idx], chunksize=8)
+    sm = sqlimpl.run_cases([dict(case(items[k]["sql"], items[k]["dialect"], items[k]["S"]), metadata=md_of[k]) for k in md_idx], chunksize=8)
+    partner_md, scoped_md = dict(zip(md_idx, pm)), dict(zip(md_idx, sm))
     sqlimpl.close_pool()
     log(f"[c14] {len(items)} items; in-process runs {t2 - t0:.1f}s, subprocess (environment) runs {time.time() - t2:.1f}s")
 
@@ -387,6 +409,15 @@ def run(chk):
             else:
                 st.c["MISMATCH:" + mech] += 1
                 fails.append((k, mech, g2, exp))
+        # the same with a metadata provider
+        if k in partner_md and comparable(partner_md[k]) is not None and comparable(scoped_md[k]) is not None:
+            e3 = expected_from_partner(partner_md[k], it["label"], it["S"]) if "result" in partner_md[k] else comparable(partner_md[k])
+            g3 = remap(scoped_md[k], lambda s: s) if "result" in scoped_md[k] else comparable(scoped_md[k])
+            st.c["scoped+metadata:checked"] += 1
+            chk.count(canon_json([it["sql"], it["dialect"], it["label"], "scoped+metadata"]), nontrivial)
+            if g3 != e3:
+                st.c["MISMATCH:scoped+metadata"] += 1
+                fails.append((k, "scoped+metadata", g3, e3))
         # qualified names unaffected
         rq = comparable(requal[k])
         if rq is not None and "result" in requal[k] and "result" in partner[k]:
@@ -445,17 +476,20 @@ def run(chk):
             chk.known("D17")
             continue
         # finding D45-subquery-schema-lost: the schema of a select-list subquery's table is lost on the way through `_get_column_from_subquery`
-        if not cls and chk.finding("D45-subquery-schema-lost") is not None and mech.split(":")[0] in ("scoped", "env", "env+scoped") and \
+        if not cls and chk.finding("D45-subquery-schema-lost") is not None and mech.split(":")[0] in ("scoped", "env", "env+scoped", "scoped+metadata") and \
                 (gensql.item_has_subq(it["ast"]) if it["ast"] is not None else corpus14.text_item_has_subq(it["sql"] if isinstance(it["sql"], str) else ";".join(it["sql"]))) \
-                and "cyto_table" not in diff_keys(got, exp) and not any(x in diff_keys(got, exp) for x in ("source", "target", "intermediate")):
+                and not any(x in diff_keys(got, exp) for x in ("source", "target", "intermediate")) \
+                and ("cyto_table" not in diff_keys(got, exp) or d45_owner_collides(it, got, exp)):
             chk.known("D45-subquery-schema-lost")
             continue
         if reported >= 3:
             continue
         reported += 1
         small = it
-        if it["ast"] is not None and mech in ("scoped", "env"):
-            small = shrink_item(drv, it, mech)
+        if mech == "scoped+metadata":
+            small = dict(it, metadata=md_of[k])
+        if it["ast"] is not None and mech in ("scoped", "env", "scoped+metadata"):
+            small = shrink_item(drv, small, mech)
             got, exp = evaluate_item(small, mech)
         if not cls and chk.finding("D16") is not None and it["ast"] is not None and star_over_several(it["ast"]) and same_targets(got, exp):
             chk.known("D16")
@@ -463,7 +497,8 @@ def run(chk):
         what = ("default schema %r via %s does not give the result of the explicitly qualified script (differs in: %s)%s"
                 % (it["S"], mech, ", ".join(diff_keys(got, exp)), " [D17 class: a Table created without schema ignores the configured default]" if cls else ""))
         chk.violation(what, {"kind": "c14", "dialect": small["dialect"], "S": small["S"], "label": small["label"], "mechanism": mech,
-                             "sql": small["sql"], "qsql": small["qsql"], "ast": small.get("ast"), "got": got, "expected": exp,
+                             "sql": small["sql"], "qsql": small["qsql"], "ast": small.get("ast"), "metadata": small.get("metadata"),
+                             "got": got, "expected": exp,
                              "class": "D17" if cls else None})
     chk.coverage.update({"scripts_generated": len(scripts), "scripts_corpus_used": n_corpus, "scripts_corpus_skipped_by_rewriter": n_skipped,
                          "text_cases": len(TEXT_CASES), "dialects": dialects, "mechanisms": ["scoped", "env"] + (["env+scoped"] if thorough else []),
@@ -471,7 +506,8 @@ def run(chk):
     chk.assumptions += ["corpus scripts are qualified by a conservative token-level rewriter; the scripts it refuses are skipped and counted",
                         "a column qualifier that names no relation in scope cannot be schema-qualified in SQL text as sqllineage reads it "
                         "(only the last qualifier part is kept): its owner is expected in S, i.e. the partner's placeholder schema is mapped to S",
-                        "S ranges over plain lower-case names (the theorems' `Plain S`); quoted / mixed-case defaults are C16's subject",
+                        "S ranges over plain lower-case names (the theorems' `Plain S`) and one name spelled with upper-case letters (normalised like a written "
+                        "schema name); quoted defaults are C16's subject",
                         "generated scripts run under sqlfluff dialects only: the sqlparse analyzer (`non-validating`) loses the sources of "
                         "`insert into <schema>.<table> (select ...)` whatever the default schema is — a parser-level defect of the QUALIFIED text "
                         "(C09's subject); one hand-written sqlparse case is kept"]
@@ -484,6 +520,26 @@ def run(chk):
              "override in process, environment variable in a fresh subprocess[, both]}; compared: source/target/intermediate tables, all "
              "column paths, both cytoscape exports. non-trivial = the partner reports at least one table; distinct by (text, dialect, S, mechanism)",
         trusted_base=["Lean 4.33 kernel", "axioms: propext, Classical.choice, Quot.sound", "harness/c14.py, corpus14.py, sqlimpl.py"])
+
+
+def d45_owner_collides(it, got, exp):
+    """D45 seen in the table-level export: the fallback owner `<placeholder>.<bare name>` of a select-list subquery's column is, under a
+    default (or no default at all), the SAME node as a table of that bare name which a DROP / RENAME of the script names — in the
+    qualified partner the two are different tables.  Recognised by: the roles agree, the edges of the table export agree, and every node
+    the two exports do not share is a table that a DROP / RENAME statement of the script names (by bare name)."""
+    if it.get("ast") is None or "result" not in got or "result" not in exp:
+        return False
+    g, e = got["result"]["cyto_table"], exp["result"]["cyto_table"]
+    if g["edges"] != e["edges"]:
+        return False
+    ddl = set()
+    for st_ in it["ast"]:
+        if st_ and st_[0] in ("drop", "alter_rename", "rename_table"):
+            for n in gensql._walk(st_):
+                if isinstance(n, list) and n and all(isinstance(x, str) for x in n):
+                    ddl.add(n[-1].lower())
+    odd = set(map(str, g["nodes"])) ^ set(map(str, e["nodes"]))
+    return bool(odd) and all(x.rsplit(".", 1)[-1] in ddl for x in odd)
 
 
 def star_over_several(stmts):
@@ -522,6 +578,13 @@ def classify_d17(got, exp, S):
 
 def evaluate_item(it, mech):
     want = ("tables", "columns", "cyto")
+    if mech == "scoped+metadata":
+        partner = sqlimpl.run_case({"sql": it["qsql"], "dialect": it["dialect"], "want": want, "metadata": it["metadata"]})
+        got = sqlimpl.run_case({"sql": it["sql"], "dialect": it["dialect"], "default_schema": it["S"], "want": want, "metadata": it["metadata"]})
+        if "rejected" in partner or "rejected" in got:
+            return {"rejected": True}, {"rejected": True}
+        exp = expected_from_partner(partner, it["label"], it["S"]) if "result" in partner else comparable(partner)
+        return (remap(got, lambda s: s) if "result" in got else comparable(got)), exp
     partner = sqlimpl.run_case({"sql": it["qsql"], "dialect": it["dialect"], "want": want})
     if mech == "scoped":
         got = sqlimpl.run_case({"sql": it["sql"], "dialect": it["dialect"], "default_schema": it["S"], "want": want})
@@ -584,7 +647,7 @@ def replay(chk, obj):
     r = obj["replay"]
     if r.get("kind") == "c14":
         os.environ.pop(ENVVAR, None)
-        it = {"sql": r["sql"], "qsql": r["qsql"], "dialect": r["dialect"], "S": r["S"], "label": r["label"]}
+        it = {"sql": r["sql"], "qsql": r["qsql"], "dialect": r["dialect"], "S": r["S"], "label": r["label"], "metadata": r.get("metadata")}
         got, exp = evaluate_item(it, r["mechanism"])
         print(json.dumps({"script": r["sql"], "qualified": r["qsql"], "S": r["S"], "mechanism": r["mechanism"],
                           "differs_in": diff_keys(got, exp) if got != exp else [],
